@@ -477,6 +477,35 @@ func Pointers(v *jr.Value) (res, miss []string) {
 	return
 }
 
+// NearNamePointers lists, for every object in v, pointers to members that are absent but whose names a careless
+// comparison takes for a name that is present: the other letter case, a trailing blank, the name cut short.
+func NearNamePointers(v *jr.Value) (miss []string) {
+	var walk func(x *jr.Value, prefix string)
+	walk = func(x *jr.Value, prefix string) {
+		switch x.K {
+		case jr.Obj:
+			has := map[string]bool{}
+			for _, k := range x.Keys {
+				has[k] = true
+			}
+			for i, k := range x.Keys {
+				walk(x.Vals[i], prefix+"/"+jr.EncTok(k))
+				for _, alt := range []string{strings.ToUpper(k), strings.ToLower(k), strings.Title(k), k + " ", strings.TrimSpace(k)} {
+					if alt != k && !has[alt] {
+						miss = append(miss, prefix+"/"+jr.EncTok(alt))
+					}
+				}
+			}
+		case jr.Arr:
+			for i, e := range x.A {
+				walk(e, prefix+"/"+strconv.Itoa(i))
+			}
+		}
+	}
+	walk(v, "")
+	return
+}
+
 // Pick draws a pointer: a near-miss with probability missRate percent.
 func Pick(r *rand.Rand, res, miss []string, missRate int) string {
 	if len(miss) > 0 && r.Intn(100) < missRate {
